@@ -424,6 +424,12 @@ def replay_case(case):
     if k == "tasks":
         ops = [tuple(tuple(x) if isinstance(x, list) else x for x in o) for o in case["ops"]]
         return mach.run_task_history(ops)[1]
+    if k == "api":
+        from tools.vlib import c11_system as S
+        res = S.run_api_job(dict(case["job"]))
+        if "crash" in res:
+            return [("crash", res["crash"])]
+        return res["bad"]
     if k == "service-machine":
         ops = [tuple(o) for o in case["ops"]]
         return mach.run_service_history(ops)[2]
@@ -460,6 +466,11 @@ def run(ctx):
     from tools.tr.tr_expr import Unsupported
     stage_corpus(ctx)
     rows = None
+    pubs = None
+    try:
+        pubs = tr_lifecycle.public_coroutines()
+    except Exception as e:   # noqa
+        ctx.broke("translator tr_lifecycle.public_coroutines aborted", repr(e))
     try:
         t1, t2, api, rows = tr_lifecycle.write()
         ctx.extra["generated"] = {"gen/G11_api.v": len(t1), "gen/G11_unload.v": len(t2)}
@@ -498,6 +509,7 @@ def run(ctx):
     for t in th:
         t.start()
     try:
+        stage_api(ctx, pool, pubs)
         stage_service_system(ctx, pool)
         sc, sm = stage_system(ctx, rows, pool)
     finally:
@@ -519,7 +531,9 @@ def run(ctx):
         "late datagrams (captured + all 256 ids + cells + tunnel side + open transports), API probes, 2 h of virtual time; "
         "(d) real ipv8_service.IPv8: all add_strategy/unload_overlay/on_tick histories to depth %d with stub overlays, and three full "
         "IPv8 instances (default configuration minus bootstrappers, ticker running) with unload_overlay / stop at several virtual "
-        "times followed by 90 s of observation. "
+        "times followed by 90 s of observation; (e) every public coroutine of every overlay class (table from the translator, "
+        "fail-closed) started by the application and still pending - peers answering late or not at all - when unload() is "
+        "requested at several instants, then 60 s of observation of the endpoint. "
         "non-trivial = a listener was called / a task event occurred / the overlay handled or sent a datagram before unload"
         % ((4, 3, 3, 4) if ctx.quick else (6, 5, 5, 6)))
     ctx.coverage["exhaustive"] = False
@@ -667,3 +681,41 @@ def stage_service_system(ctx, pool):
             ctx.violation(key, "%s [IPv8 service, %s at t=%ss, seed %d]" % (what, job["mode"], job["unload_time"], job["seed"]),
                           {"kind": "service", "job": job})
     ctx.extra["service_runs"] = stats
+
+
+# ======================================================================================= (e) pending application API calls
+def api_jobs(ctx, pubs):
+    from tools.vlib import c11_system as S
+    D = S.api_drivers()
+    times = [0.05, 0.4, 0.9, 1.3, 1.9] if ctx.quick else [0.0, 0.05, 0.2, 0.4, 0.65, 0.9, 1.1, 1.3, 1.65, 1.9, 2.3, 3.0]
+    jobs = []
+    for cls, drivers in D.items():
+        for api, drv in drivers.items():
+            if drv is None:
+                continue
+            for seed in range(1, (1 if ctx.quick else 3) + 1):
+                for t in times:
+                    jobs.append({"api_job": True, "cls": cls, "api": api, "t": t, "seed": seed})
+    # coverage is fail-closed: every public coroutine the translator found must have a driver entry
+    for cls, m, routed in pubs or []:
+        if m not in D.get(cls, {}):
+            ctx.broke("public coroutine %s.%s has no pending-API driver in tools/vlib/c11_system.py" % (cls, m))
+    return jobs
+
+
+def stage_api(ctx, pool, pubs):
+    from tools.vlib import c11_system as S
+    results = pool.map(S.run_api_job, api_jobs(ctx, pubs), chunksize=4)
+    stats = {"runs": 0, "pending_at_unload": 0}
+    for res in results:
+        job = res["job"]
+        if "crash" in res:
+            ctx.broke("pending-API run crashed (%s.%s)" % (job["cls"], job["api"]), res["crash"])
+            continue
+        stats["runs"] += 1
+        stats["pending_at_unload"] += int(res["pending_at_unload"])
+        ctx.count(("API", job["cls"], job["api"], job["t"], job["seed"]), nontrivial=res["pending_at_unload"])
+        for key, what in res["bad"]:
+            ctx.violation(key, "%s [unload %.2fs after the call, seed %d]" % (what, job["t"], job["seed"]), {"kind": "api", "job": job})
+    ctx.extra["pending_api_runs"] = stats
+    ctx.extra["public_coroutines"] = [[c, m, r] for c, m, r in (pubs or [])]
